@@ -87,6 +87,12 @@ def sweep_main():
         out["cases"] += 1
         if len(out["samples"]) < 3:
             out["samples"].append({k: repr(v)[:200] for k, v in model.items()})
+        if "verdict" in r:
+            out["evaluations"] += 1
+            if r["verdict"] and len(out["failures"]) < 5:
+                out["failures"].append({"name": f"{c.name} :: differs from the independent decoding", "model": model,
+                                        "observed": repr(r.get("result"))[:300], "expected": repr(r.get("expected"))[:300]})
+            continue
         if r.get("exc") is not None:
             if not getattr(c, "raises_any", False):
                 out["failures"].append({"name": f"{c.name}: unexpected {type(r['exc']).__name__}", "model": model})
